@@ -27,10 +27,13 @@ class FS:
     kw_only: bool = False
     default: Optional[str] = None  # source text of default, None = required
     factory: Optional[str] = None  # source text of a default_factory (value differs per instance)
+    raw: Optional[str] = None  # the complete right-hand side of the field (e.g. a field(...) call with metadata), verbatim
     hash_: Optional[bool] = None  # explicit field(hash=...) (never part of pyoak's notion of comparable)
     repr_: bool = True
 
     def render(self) -> str:
+        if self.raw is not None:
+            return f"    {self.name}: {self.ann} = {self.raw}"
         opts = []
         if self.factory is not None:
             opts.append(f"default_factory={self.factory}")
@@ -231,6 +234,22 @@ class {P}Flags(enum.IntFlag):
     WRITE = 2
 
 
+@dataclass(frozen=True)
+class {P}IntT:
+    pass
+
+
+@dataclass(frozen=True)
+class {P}StrT:
+    pass
+
+
+@dataclass(frozen=True)
+class {P}ListOf:
+    # value objects (not nodes) that nest: the classes of inner members are part of the value
+    elem: Any = None
+
+
 class {P}Symbol:
     # an opaque handle with identity equality (no __eq__): two handles are equal only if they are one object
     def __init__(self, name):
@@ -394,6 +413,10 @@ def core_specs(P: str = "U", variant: int = 0) -> list[CS]:
             body="    def __len__(self):\n        return len(self.elems)\n\n    def __iter__(self):\n        return iter(self.elems)\n\n    def __contains__(self, x):\n        return any(x is e for e in self.elems)\n",
         ),
         CS(f"{P}Hold", (E,), F(FS("blk", "child", f"{P}Coll", "one", (f"{P}Coll",)), FS("alt", "child", f"{P}Coll | None", "opt", (f"{P}Coll",), default="None"))),
+        # a property with mashumaro field metadata (a lossy wire form): the value itself is what counts for content
+        CS(f"{P}Meta", (E,), F(FS("amount", "prop", "Decimal", "decimal", default='Decimal("0")', raw='field(default=Decimal("0"), metadata={"serialize": lambda d: f"{d:.2f}", "deserialize": Decimal})'), FS("kid", "child", f"{E} | None", "opt", (E,), default="None"))),
+        # a property holding nested value objects (dataclasses that are not nodes)
+        CS(f"{P}Typed", (E,), F(FS("ty", "prop", "Any", "valueobj", default="None"), FS("kid", "child", f"{E} | None", "opt", (E,), default="None"))),
         # a model with a child field that is itself called 'children' (it shadows the library's convenience property)
         CS(f"{P}Elem", (E,), F(FS("tag", "prop", "str", "str", default='""'), FS("attrs", "child", f"tuple[{E}, ...]", "tuple", (E,), default="()"), FS("children", "child", f"tuple[{E}, ...]", "tuple", (E,), default="()"), FS("tail", "child", f"{E} | None", "opt", (E,), default="None"))),
         # an abstract base node class (abc.ABC: another metaclass) and a concrete subclass
